@@ -7,7 +7,7 @@ use ff::Field;
 use group::{cofactor::CofactorGroup, prime::PrimeCurveAffine, Curve, Group, GroupEncoding, UncompressedEncoding};
 use midnight_curves::serde::SerdeObject;
 use midnight_curves::{
-    bn256, CurveExt, ExtendedNielsPoint, Fq as Base, G1Affine, G1Projective, G2Affine,
+    bn256, CurveAffine, CurveExt, ExtendedNielsPoint, Fq as Base, G1Affine, G1Projective, G2Affine,
     G2Projective, JubjubAffine, JubjubAffineNiels, JubjubExtended, JubjubSubgroup,
 };
 use mzkh::Ctx;
@@ -404,47 +404,94 @@ macro_rules! bls_serde {
 bls_serde!(g1_serde, "g1", G1Affine, G1Projective, crate::curves::G1);
 bls_serde!(g2_serde, "g2", G2Affine, G2Projective, crate::curves::G2);
 
-/// BN254 (`derive/curve.rs`): `SerdeObject` raw bytes (internal Montgomery limbs): round trips,
-/// and the CHECKED readers must reject a point that is not on the curve.
-pub fn bn_raw_serde(ctx: &mut Ctx) {
-    let mut rng = ctx.rng("bn1-raw-serde");
-    let g = bn256::G1Affine::generator();
-    for p in [g, (g.to_curve().double()).to_affine(), bn256::G1Affine::identity(), bn256::G1::random(&mut rng).to_affine()] {
-        let raw = p.to_raw_bytes();
-        let ok = bn256::G1Affine::from_raw_bytes(&raw) == Some(p)
-            && bn256::G1Affine::read_raw(&mut &raw[..]).ok() == Some(p)
-            && bn256::G1Affine::from_raw_bytes_unchecked(&raw) == p
-            && bn256::G1Affine::read_raw_unchecked(&mut &raw[..]) == p;
-        let pr = p.to_curve().double();
-        let rawp = pr.to_raw_bytes();
-        let okp = bn256::G1::from_raw_bytes(&rawp) == Some(pr) && bn256::G1::read_raw(&mut &rawp[..]).ok() == Some(pr);
-        ctx.count(&format!("bn1-raw-roundtrip:{}", ok && okp));
-        if !ok || !okp {
-            crate::fail(ctx, "C11:bn1:raw-roundtrip", "SerdeObject raw bytes do not round-trip", json!({"bytes": hex_bytes(&raw)}));
+macro_rules! bn_raw {
+    ($fname:ident, $tag:literal, $proj:ty, $aff:ty, $base:ty, $curve:ty) => {
+        /// BN254 (`derive/curve.rs`): `SerdeObject` raw bytes (internal Montgomery limbs): round trips;
+        /// BOTH checked readers (`from_raw_bytes`, `read_raw`) accept exactly the coordinate pairs /
+        /// triples that satisfy the curve equation (model lines `oncurve_xy:<reader>`,
+        /// `oncurve_raw:<reader>` = `Bn.affIsOnCurve` / `Bn.isOnCurve`). Regression of
+        /// `C11:bn:read_raw-accepts-offcurve` (fixed in 569715f: `read_raw` skipped the check).
+        pub fn $fname(ctx: &mut Ctx) {
+            type C = $curve;
+            type A = $aff;
+            type P = $proj;
+            let t = $tag;
+            let mut rng = ctx.rng(&format!("{t}-raw-serde"));
+            let g = <$aff>::generator();
+            let mut affs: Vec<(&str, $aff)> = vec![
+                ("valid", g),
+                ("valid", g.to_curve().double().to_affine()),
+                ("valid", <$aff>::identity()),
+                ("valid", <$proj>::random(&mut rng).to_affine()),
+                ("off-curve", A { x: g.x, y: g.y + <$base>::ONE }),
+                ("off-curve", A { x: g.x + <$base>::ONE, y: g.y }),
+                ("off-curve", A { x: <$base>::ZERO, y: <$base>::ONE }),
+                ("off-curve", A { x: <$base>::ONE, y: <$base>::ZERO }),
+            ];
+            for _ in 0..3 {
+                affs.push(("off-curve", A { x: <$base>::random(&mut rng), y: <$base>::random(&mut rng) }));
+            }
+            for (class, p) in &affs {
+                let raw = p.to_raw_bytes();
+                let a = <$aff>::from_raw_bytes(&raw);
+                let b = <$aff>::read_raw(&mut &raw[..]).ok();
+                let xy = format!("{}/{}", big::tok(&p.x.to_e()), big::tok(&p.y.to_e()));
+                ctx.count(&format!("{t}-raw-affine:{class}:from_raw_bytes={}:read_raw={}", a.is_some(), b.is_some()));
+                ctx.case(&format!("{t}-raw-serde"), true, &format!("{t} oncurve_xy:from_raw_bytes {xy}"), &format!("{}", a.is_some() as u8));
+                ctx.case(&format!("{t}-raw-serde"), true, &format!("{t} oncurve_xy:read_raw {xy}"), &format!("{}", b.is_some() as u8));
+                let on = bool::from(p.is_on_curve());
+                if a.is_some() != on || (a.is_some() && a != Some(*p)) {
+                    crate::fail(ctx, &format!("C11:{t}:from_raw_bytes {xy}"), "from_raw_bytes does not accept exactly the points on the curve", json!({"bytes": hex_bytes(&raw)}));
+                }
+                if b.is_some() != on || (b.is_some() && b != Some(*p)) {
+                    crate::fail_once(
+                        ctx,
+                        "C11:bn:read_raw-accepts-offcurve",
+                        "SerdeObject::read_raw (the checked reader) of the derive/curve.rs types accepts a point that is not on the curve, while from_raw_bytes rejects the same bytes",
+                        json!({"type": stringify!($aff), "bytes": hex_bytes(&raw), "point": xy, "from_raw_bytes": a.is_some(), "read_raw": b.is_some()}),
+                    );
+                }
+                if on && (<$aff>::from_raw_bytes_unchecked(&raw) != *p || <$aff>::read_raw_unchecked(&mut &raw[..]) != *p) {
+                    crate::fail(ctx, &format!("C11:{t}:raw-unchecked {xy}"), "unchecked raw readers do not return the stored point", json!({}));
+                }
+            }
+            let gp = g.to_curve().double();
+            let mut projs: Vec<(&str, $proj)> = vec![
+                ("valid", g.to_curve()),
+                ("valid", gp),
+                ("valid", <$proj>::identity()),
+                ("valid", <$proj>::random(&mut rng).double()),
+                ("off-curve", P { x: gp.x, y: gp.y + <$base>::ONE, z: gp.z }),
+                ("off-curve", P { x: g.x, y: g.y + <$base>::ONE, z: <$base>::ONE }),
+                ("z=0", P { x: <$base>::random(&mut rng), y: <$base>::random(&mut rng), z: <$base>::ZERO }),
+            ];
+            for _ in 0..3 {
+                projs.push(("off-curve", P { x: <$base>::random(&mut rng), y: <$base>::random(&mut rng), z: <$base>::random(&mut rng) }));
+            }
+            for (class, p) in &projs {
+                let raw = p.to_raw_bytes();
+                let a = <$proj>::from_raw_bytes(&raw);
+                let b = <$proj>::read_raw(&mut &raw[..]).ok();
+                let pt = crate::wei::raw_tok::<C>(p);
+                ctx.count(&format!("{t}-raw-projective:{class}:from_raw_bytes={}:read_raw={}", a.is_some(), b.is_some()));
+                ctx.case(&format!("{t}-raw-serde"), true, &format!("{t} oncurve_raw:from_raw_bytes {pt}"), &format!("{}", a.is_some() as u8));
+                ctx.case(&format!("{t}-raw-serde"), true, &format!("{t} oncurve_raw:read_raw {pt}"), &format!("{}", b.is_some() as u8));
+                let on = bool::from(p.is_on_curve());
+                let same = |q: &Option<$proj>| q.map_or(false, |q| (q.x, q.y, q.z) == (p.x, p.y, p.z));
+                if a.is_some() != on || (on && !same(&a)) {
+                    crate::fail(ctx, &format!("C11:{t}:from_raw_bytes-projective {pt}"), "from_raw_bytes does not accept exactly the triples on the curve", json!({"bytes": hex_bytes(&raw)}));
+                }
+                if b.is_some() != on || (on && !same(&b)) {
+                    crate::fail_once(
+                        ctx,
+                        "C11:bn:read_raw-accepts-offcurve",
+                        "SerdeObject::read_raw (the checked reader) of the derive/curve.rs types accepts a point that is not on the curve, while from_raw_bytes rejects the same bytes",
+                        json!({"type": stringify!($proj), "bytes": hex_bytes(&raw), "point": pt, "from_raw_bytes": a.is_some(), "read_raw": b.is_some()}),
+                    );
+                }
+            }
         }
-    }
-    // off-curve coordinates
-    let off = bn256::G1Affine { x: g.x, y: g.y + bn256::Fq::ONE };
-    let raw = off.to_raw_bytes();
-    let a = bn256::G1Affine::from_raw_bytes(&raw).is_some();
-    let b = bn256::G1Affine::read_raw(&mut &raw[..]).is_ok();
-    ctx.count(&format!("bn1-raw-offcurve:from_raw_bytes={a}:read_raw={b}"));
-    if a {
-        crate::fail(ctx, "C11:bn1:from_raw_bytes-offcurve", "from_raw_bytes accepts a point off the curve", json!({"bytes": hex_bytes(&raw)}));
-    }
-    if b {
-        crate::fail_once(
-            ctx,
-            "C11:bn:read_raw-accepts-offcurve",
-            "SerdeObject::read_raw (the checked reader) of the derive/curve.rs types accepts a point that is not on the curve, while from_raw_bytes rejects the same bytes",
-            json!({"type": "bn256::G1Affine", "bytes": hex_bytes(&raw), "x": big::tok(&g.x.to_e()), "y": big::tok(&(g.y + bn256::Fq::ONE).to_e()), "from_raw_bytes": a, "read_raw": b}),
-        );
-    }
-    let offp = bn256::G1 { x: g.x, y: g.y + bn256::Fq::ONE, z: bn256::Fq::ONE };
-    let rawp = offp.to_raw_bytes();
-    let (a, b) = (bn256::G1::from_raw_bytes(&rawp).is_some(), bn256::G1::read_raw(&mut &rawp[..]).is_ok());
-    ctx.count(&format!("bn1-raw-offcurve-projective:from_raw_bytes={a}:read_raw={b}"));
-    if b {
-        crate::fail_once(ctx, "C11:bn:read_raw-accepts-offcurve", "SerdeObject::read_raw (the checked reader) of the derive/curve.rs types accepts a point that is not on the curve, while from_raw_bytes rejects the same bytes", json!({"type": "bn256::G1"}));
-    }
+    };
 }
+bn_raw!(bn1_raw_serde, "bn1", bn256::G1, bn256::G1Affine, bn256::Fq, crate::curves::Bn1);
+bn_raw!(bn2_raw_serde, "bn2", bn256::G2, bn256::G2Affine, bn256::Fq2, crate::curves::Bn2);
